@@ -10,7 +10,11 @@ one() {
   if echo "$out" | grep -q "PATCH DID NOT APPLY"; then echo "$id  PATCH-DOES-NOT-APPLY"; return; fi
   n=$(echo "$out" | grep -c "^VIOLATION")
   rules=$(echo "$out" | grep -v "^VIOLATION\|^KNOWN\|^    \|^C[0-9][0-9] \|^note:" | sed 's/^[^ ]* \([a-zA-Z0-9.]*\): .*/\1/' | sort | uniq -c | tr '\n' ' ')
-  if [ "$n" -gt 0 ]; then echo "$id  CAUGHT ($n) $rules"; else echo "$id  MISSED"; fi
+  if [ "$n" -gt 0 ]; then echo "$id  CAUGHT ($n) $rules"; return; fi
+  # not caught by the check of its own property: does the check of a neighbouring property report it?
+  all="$("$V/tools/mutest.sh" "$d/patch.diff" all 2>&1)"
+  others=$(echo "$all" | grep "^VIOLATION" | sed 's/.*property=\([A-Z0-9]*\).*/\1/' | sort -u | tr '\n' ' ')
+  if [ -n "$others" ]; then echo "$id  MISSED by $prop, caught by: $others"; else echo "$id  MISSED"; fi
 }
 if [ $# -gt 0 ]; then SEL="$*"; else SEL=""; fi
 for d in "$V"/seeded/C*; do
